@@ -1,0 +1,6 @@
+//go:build !verif
+
+package syzgydb
+
+// verifPoint is a no-op unless built with -tags verif.
+func verifPoint(name string, db *SpanFile) {}
